@@ -234,7 +234,11 @@ def _modfunc(rng, g, dom, kind):
         if rng.random() < 0.15:
             # beyond the 800-element switch to radix sort, high keys
             ops_.append(["range", rng.choice([0, 1, 2, 3]),
-                         rng.choice([300, 900, 1700]), rng.choice([1, 3, 7])])
+                         rng.choice([300, 900, 1700]),
+                         # step: small, or "half" / "full" = the keys are
+                         # spread over the lower half / the whole of the
+                         # family's range (every byte of the key varies)
+                         rng.choice([1, 3, 7, "half", "full"])])
         return ["mod", fn, ops_]
     a, b = operand(), operand()
     if fn.startswith("weighted"):
@@ -259,8 +263,13 @@ def _build_operand(spec, c, dom, impl):
     if k == "range":
         lo, hi = domains.INT_RANGE[dom.kcode]
         base = [lo, 0, hi - 40000, (hi // 2) + 1][spec[1]]
-        base = max(lo, min(base, hi - spec[2] * spec[3] - 1))
-        vals = [base + i * spec[3] for i in range(spec[2])]
+        step = spec[3]
+        if step == "half":
+            base, step = lo, (hi - lo) // (2 * spec[2] + 2)
+        elif step == "full":
+            base, step = lo, (hi - lo) // (spec[2] + 1)
+        base = max(lo, min(base, hi - spec[2] * step - 1))
+        vals = [base + i * step for i in range(spec[2])]
         # deterministic shuffle
         return vals[1::2] + vals[0::2]
     if k in ("Set", "TreeSet"):
